@@ -189,6 +189,7 @@ func clientAlphabet(c *vk.Ctx) []event {
 		{K: "tick"},
 		{K: "mem-", Sp: "X", A: "A"}, {K: "mem-", Sp: "X", A: "B"},
 		Q("n", "A", "a", "X", "qA"), Q("n", "B", "a/b", "X", "qB"), Q("n", "A", "acc/$A", "X", "qC"), Q("n", "A", "a", "Y", "qD"), Q("s2", "B", "a", "X", "qE"),
+		Q("n", "A", "a", "X", "qZ"), // a valid message whose id is all zero bytes
 		{K: "lpub", Sp: "X", L: []string{"a"}}, {K: "echo"},
 		sub("s0", "X", "a"), unsub("s0", "X"), {K: "close", S: "s0"}, {K: "close", S: "n"}, {K: "open", S: "n"},
 	}
@@ -198,7 +199,7 @@ func clientAlphabet(c *vk.Ctx) []event {
 	return a
 }
 
-func clientLabels() []string { return []string{"qA", "qB", "qC", "qD", "qE"} }
+func clientLabels() []string { return []string{"qA", "qB", "qC", "qD", "qE", "qZ"} }
 
 func clientProbes() []event {
 	P := func(signer, topic, space, id string) pubSpec {
